@@ -41,6 +41,8 @@ struct bytes {
 
 static void by_put(struct bytes *b, const void *d, size_t n)
 {
+	if (!n)
+		return;
 	if (b->len + n > b->cap) {
 		b->cap = (b->len + n) * 2 + 64;
 		b->p = realloc(b->p, b->cap);
